@@ -143,12 +143,21 @@ def generate(repo: str) -> tuple[str, str]:
     items_loops = [n for n in find_nodes(rng_loops[0], ast.For) if _src(n.iter) == "self._token_values[tag].items()"]
     if len(items_loops) != 1:
         raise TranslateError("DotProductCombinator._product: `for key, elements in self._token_values[tag].items()` not found")
-    retags = [n for n in rng_loops[0].body if isinstance(n, ast.Assign) and _src(n.targets[0]) == "tag"]
-    if len(retags) != 1 or _src(retags[0].value) != "utils.get_tag([t['token'] for t in schema.values()])":
-        raise TranslateError("DotProductCombinator._product: `tag = utils.get_tag([t['token'] for t in schema.values()])` not found")
+    # since fix 0672c9b: a FRESH variable receives get_tag(...) and the yielded tokens are retagged with it; the loop
+    # variable `tag` of the enclosing `for tag in list(self._token_values)` must not be assigned inside the loop
+    if any(isinstance(n, (ast.Assign, ast.AugAssign, ast.AnnAssign)) and "tag" in
+           [_src(t) for t in (n.targets if isinstance(n, ast.Assign) else [n.target])] for n in ast.walk(outer[0])) or \
+            any(isinstance(n, ast.NamedExpr) and n.target.id == "tag" for n in ast.walk(outer[0])):
+        raise TranslateError("DotProductCombinator._product: the loop variable `tag` is re-assigned inside the loop "
+                             "(the defect repaired by 0672c9b)")
+    retags = [n for n in rng_loops[0].body if isinstance(n, ast.Assign)
+              and _src(n.value) == "utils.get_tag([t['token'] for t in schema.values()])"]
+    if len(retags) != 1 or len(retags[0].targets) != 1 or not isinstance(retags[0].targets[0], ast.Name):
+        raise TranslateError("DotProductCombinator._product: `<name> = utils.get_tag([t['token'] for t in schema.values()])` not found")
+    retag_var = retags[0].targets[0].id
     yields = find_nodes(rng_loops[0], ast.Yield)
-    if len(yields) != 1 or "t['token'].retag(tag)" not in _src(yields[0]):
-        raise TranslateError("DotProductCombinator._product: the yielded schema does not retag every token with `tag`")
+    if len(yields) != 1 or f"t['token'].retag({retag_var})" not in _src(yields[0]):
+        raise TranslateError(f"DotProductCombinator._product: the yielded schema does not retag every token with `{retag_var}`")
     # ---- CartesianProductCombinator._product ---------------------------------------------------------
     fn = parse_function(comb_py, "_product", cls="CartesianProductCombinator")
     cart_guard = _emit_guard(fn, "CartesianProductCombinator._product")
